@@ -229,7 +229,7 @@ theorem addPath_spec (v : JS) (hv : isObj v = false) :
               obtain ⟨q, w, _, hm⟩ := h2 sub rfl
               exact (hun _ _ hm).2 (by simp)
             | _ => simp [isObj] at hx
-      refine ⟨ms ++ [(k, v)], by simp [addPath, parentMembers], wf_append ms hw k v hk (wfVal_leaf v hv), by simp, ?_⟩
+      refine ⟨ms ++ [(k, v)], by simp [addPath, parentMembers, hk], wf_append ms hw k v hk (wfVal_leaf v hv), by simp, ?_⟩
       intro q w
       rw [flattenMembers_append]
       simp only [flattenMembers, flattenVal_leaf v hv, List.map_cons, List.map_nil, List.append_nil, List.mem_append,
@@ -475,22 +475,49 @@ theorem mapMOpt_parsePath_flat (hd : List (List Char)) (h : ∀ s ∈ hd, FlatNa
   | cons s ss ih =>
     simp [mapMOpt, parsePath_flat s (h s (by simp)), ih (fun x hx => h x (by simp [hx]))]
 
+theorem lookupKey_not_obj (k : List Char) (ms : List (List Char × JS)) (h : ∀ p ∈ ms, isObj p.2 = false) :
+    ∀ x, lookupKey k ms = some x → isObj x = false := by
+  induction ms with
+  | nil => intro x hx; simp [lookupKey] at hx
+  | cons m ms ih =>
+    intro x hx
+    obtain ⟨k', v'⟩ := m
+    simp only [lookupKey] at hx
+    split at hx
+    · cases hx; exact h (k', x) (by simp)
+    · exact ih (fun p hp => h p (by simp [hp])) x hx
+
+/-- a leaf under a key that holds no object is appended (the refusal of `addPath` needs an object there) -/
+theorem addPath_leaf_append (v : JS) (k : List Char) (ms : List (List Char × JS)) (h : ∀ p ∈ ms, isObj p.2 = false) :
+    addPath v [k] (some (.obj ms)) = some (.obj (ms ++ [(k, v)])) := by
+  simp only [addPath, parentMembers]
+  cases hl : lookupKey k ms with
+  | none => rfl
+  | some x =>
+    have := lookupKey_not_obj k ms h x hl
+    cases x <;> simp_all [isObj]
+
 theorem buildRow_flat (ks : List (List Char)) :
     ∀ (vs : List JS) (ms : List (List Char × JS)), ks.length = vs.length →
+      (∀ p ∈ ms, isObj p.2 = false) → (∀ v ∈ vs, isObj v = false) →
       buildRow (ks.map fun s => [s]) vs ms = some (ms ++ ks.zip vs) := by
   induction ks with
   | nil =>
-    intro vs ms hlen
+    intro vs ms hlen _ _
     cases vs with
     | nil => simp [buildRow]
     | cons v vs => simp at hlen
   | cons k ks ih =>
-    intro vs ms hlen
+    intro vs ms hlen hms hvs
     cases vs with
     | nil => simp at hlen
     | cons v vs =>
-      simp only [List.map_cons, buildRow, addPath, parentMembers]
-      rw [ih vs _ (by simpa using hlen)]
+      simp only [List.map_cons, buildRow, addPath_leaf_append v k ms hms]
+      rw [ih vs _ (by simpa using hlen)
+        (by intro p hp; rcases List.mem_append.mp hp with h | h
+            · exact hms p h
+            · simp at h; subst h; exact hvs v (by simp))
+        (fun w hw => hvs w (by simp [hw]))]
       simp
 
 theorem mapMOpt_rowObjP_flat (hd : List (List Char)) (rows : List (List JVal))
@@ -500,7 +527,7 @@ theorem mapMOpt_rowObjP_flat (hd : List (List Char)) (rows : List (List JVal))
   | nil => rfl
   | cons r rs ih =>
     have h1 : rowObjP (hd.map fun s => [s]) r = some (rowObj hd r) := by
-      simp [rowObjP, rowObj, buildRow_flat hd (r.map toStructure) [] (by simp [hr r (by simp)])]
+      simp [rowObjP, rowObj, buildRow_flat hd (r.map toStructure) [] (by simp [hr r (by simp)]) (by simp) (by intro v hv; simp only [List.mem_map] at hv; obtain ⟨x, _, rfl⟩ := hv; exact toStructure_not_obj x)]
     simp [mapMOpt, h1, ih (fun x hx => hr x (by simp [hx]))]
 
 end Csvq.Json
